@@ -56,8 +56,8 @@ def h_pack_for(d):
     return Harness("pack_for_%d" % d, args, body, out=("float", 2 * (d - 1) + 1), meta={"kind": "pack_for", "d": d})
 
 
-def h_layer(layer, N, S, how, M=2):
-    """construct `layer` over a probe from (config, backend) or from a parameter pack; read everything back"""
+def layer_spec(layer, N, S, M=2):
+    """(probe type or None, layer type, configuration fields as harness args, configuration expression, read-back statements)"""
     ct = STYPES[S][0]
     if layer in ("strided", "morton", "hilbert"):
         P = "verif::aprobe<float, %d>" % M
@@ -94,6 +94,13 @@ def h_layer(layer, N, S, how, M=2):
         read = ["out[%d] = static_cast<double>(c[%d]);" % (q, q) for q in range(M)]
     else:
         raise ValueError(layer)
+    return P, B, fields, cfg, read
+
+
+def h_layer(layer, N, S, how, M=2):
+    """construct `layer` over a probe from (config, backend) or from a parameter pack; read everything back"""
+    ct = STYPES[S][0]
+    P, B, fields, cfg, read = layer_spec(layer, N, S, M)
     nf = len(fields)
     args = fields + ([("std::uint64_t", 'tag')] if P else [])
     body = ""
